@@ -32,6 +32,7 @@ type IfaceV struct {
 	IsNil Term
 	V     Val
 	Dyn   types.Type
+	Static types.Type // an interface type the dynamic value is known to implement (where the value came from)
 	Box   Term // identity of the box when the payload is not itself a reference (string, integer, struct, ...)
 }
 
